@@ -17,15 +17,15 @@ RULE = ("rectangular string tables (1-4 columns x 1-5 rows, 1-2 blocks, 1-3 cate
         "breaks) placed at every (row, column); serialised and parsed by the real code and by the Lean model "
         "(text compared byte for byte, parse result cell for cell); tokeniser and category/block/file readers on "
         "foreign and malformed CIF text; mapping-operation histories on the six container classes against the model "
-        "and a dict; set/delete/serialise/row_count histories on text and binary categories (cached row count).  non-trivial = a table with an awkward value or >= 2 rows, a reader text with >= 2 tokens, "
+        "and a dict (names with leading/inner/trailing/double underscores, alternative text layouts of the same element); == of two "
+        "parsed files that lay out the same tables differently, before any access; set/delete/serialise/row_count histories on text and binary categories (cached row count).  non-trivial = a table with an awkward value or >= 2 rows, a reader text with >= 2 tokens, "
         "a history with >= 3 operations; distinct = different op lines")
 TRUSTED = ["Python str.strip/split/splitlines/partition/ljust and dict order are modelled by their documented semantics "
            "(whitespace = str.isspace, only '\\n' as line boundary inside the hypotheses)",
            "numpy unicode arrays are modelled as lists of strings (itemsize = longest element)",
            "msgpack and the BinaryCIF column encodings are outside this property (C05)"]
 ASSUMPTIONS = ["values are strings over printable ASCII, tab and newline; names follow the CIF name grammar "
-               "(non-empty, no blank, no '.', no quote, not starting with '_')",
-               "the '_' key prefix of BinaryCIFBlock is not modelled (names not starting with '_')"]
+               "(no blank, no '.', no quote); container keys include leading/inner/trailing/double underscores"]
 LEVEL_TEXT = ("Lean theorems, all for unbounded inputs: C06_table_looped and C06_table_single prove "
               "CIFCategory.deserialize(serialize(t)) = t as ONE statement for every rectangular table of single-line values "
               "(blanks, tabs, either quote character, every special first character / reserved word, empty strings; names without "
@@ -34,10 +34,11 @@ LEVEL_TEXT = ("Lean theorems, all for unbounded inputs: C06_table_looped and C06
               "tie the quoting decision and every reader first-character test to the tables regenerated from cif.py. "
               "C06_container_refines, C06_container_eq_refines, C06_get_parses: every history of mapping operations incl. == on the "
               "lazily parsed containers refines a plain association list; C06_rowcount_not_stale: the cached row count never "
-              "goes stale (after two fix: commits). Partial: multi-line values and single-line values with both quote characters "
+              "goes stale (after two fix: commits); C06_container_refines_prefixed / C06_binary_block_refines: BinaryCIFBlock's '_' key "
+              "prefix (stored key '_'+name, iteration removes exactly one prefix, after a fix: commit) refines the same mapping for every name. Partial: multi-line values and single-line values with both quote characters "
               "only under explicit line hypotheses (C06_multiline_partial, C06_both_quotes_partial, at the category reader's "
               "token pipeline; each excluded class has a _defect witness and is a known finding). Not a theorem: block/file cutting "
-              "(CIFBlock/CIFFile.deserialize), rows that mix multi-line values with others, the BinaryCIF '_' key prefix - "
+              "(CIFBlock/CIFFile.deserialize), rows that mix multi-line values with others - "
               "covered by the correspondence (text compared byte for byte, parse result cell for cell) and the dict/round-trip oracle.")
 LEVEL_NOTE = "text model over List Char; Python string library and numpy modelled, not verified; BinaryCIF key prefix not modelled"
 TECHNIQUE = "Lean 4 proof (induction over rows/tokens/histories, refinement) + Gen tables from ast + correspondence"
@@ -573,7 +574,8 @@ def split_line(rng):
 
 # ---------------------------------------------------------------- container histories
 KINDS = ["tfile", "tblock", "tcat", "bfile", "bblock", "bcat"]
-CKEYS = ["a", "b", "c", "d", "e1", "f_2"]
+# names with inner / trailing / double / leading underscores: BinaryCIFBlock adds and removes a "_" key prefix
+CKEYS = ["a", "b", "c", "d", "e1", "f_2", "t_", "u__", "m__n", "_p", "__q_"]
 
 
 def entries(rng, kind, n=None):
@@ -585,7 +587,9 @@ def entries(rng, kind, n=None):
         if kind == "tcat" or r < 0.5:
             out.append(f"{k}=P{rng.randint(0, 9)}")
         elif r < 0.85:
-            out.append(f"{k}=R{rng.randint(0, 9)}")
+            # Q: the same element serialised in another text layout (text files/blocks only)
+            lay = "Q" if kind in ("tfile", "tblock") and rng.random() < 0.4 else "R"
+            out.append(f"{k}={lay}{rng.randint(0, 9)}")
         else:
             out.append(f"{k}=B")
     return "_" if not out else ",".join(out)
@@ -618,6 +622,74 @@ def history(rng, kind=None):
     ops.append("citer")
     ops.append(f"ceq {entries(rng, kind)}")
     return {"kind": "container/" + kind, "ops": ops}
+
+
+def _foreign_tok(rng, v, quote_all):
+    special = (v == "" or any(c in v for c in " \t'\"") or v[0] in "_#;$[]"
+               or v.lower().startswith(("data_", "loop_", "save_", "global_", "stop_")))
+    if not special and not quote_all and rng.random() < 0.8:
+        return v
+    q = '"' if "'" in v else "'" if '"' in v else rng.choice("'\"")
+    return q + v + q
+
+
+def render_foreign(table, rng):
+    """The table as some other CIF writer would lay it out: own padding, quoting style, column and category
+    order, comment/blank lines (only single-line values without both quote characters)."""
+    out = []
+    for bn, cats in table:
+        out.append("data_" + bn)
+        out.append(rng.choice(["#", "# " + bn, ""]))
+        cats = list(cats)
+        rng.shuffle(cats)
+        for cn, cols in cats:
+            cols = list(cols)
+            rng.shuffle(cols)
+            quote_all = rng.random() < 0.2
+            vals = [[render_cell(c) for c in cells] for _, cells in cols]
+            nrows = len(vals[0])
+            if nrows == 1 and rng.random() < 0.8:
+                width = max(len(k) for k, _ in cols) + rng.randint(1, 4)
+                for (k, _), v in zip(cols, vals):
+                    out.append(("_" + cn + "." + k).ljust(width + len(cn) + 2) + " " + _foreign_tok(rng, v[0], quote_all))
+            else:
+                out.append("loop_")
+                for k, _ in cols:
+                    out.append("_" + cn + "." + k + rng.choice(["", " "]))
+                for i in range(nrows):
+                    toks = [_foreign_tok(rng, v[i], quote_all) for v in vals]
+                    if rng.random() < 0.2 and len(toks) > 1:
+                        out.extend(toks)                      # one value per line
+                    else:
+                        out.append((" " * rng.randint(1, 3)).join(toks))
+            out.append(rng.choice(["#", "#", "", "# --"]))
+    return "\n".join(out) + "\n"
+
+
+def eqfiles_case(rng):
+    """Two texts of the same tables (or of tables differing in one cell), parsed and compared before any access."""
+    table = make_table(rng, multi_ok=False)
+    for _, cats in table:
+        for _, cols in cats:
+            for _, cells in cols:
+                for c in cells:
+                    if c[0] == "p" and "'" in c[1] and '"' in c[1]:
+                        c[1] = c[1].replace('"', "")
+                        if c[1] in (".", "?"):
+                            c[1] = "x"
+    import copy
+    other = copy.deepcopy(table)
+    equal = rng.random() < 0.75
+    if not equal:
+        b = rng.choice(other)
+        c = rng.choice(b[1])
+        col = rng.choice(c[1])
+        i = rng.randrange(len(col[1]))
+        old = render_cell(col[1][i])
+        col[1][i] = ["p", old + "x" if old not in (".", "?") else "y"]
+    ta, tb = render_foreign(table, rng), render_foreign(other, rng)
+    return {"kind": "eqfiles", "ops": [f"eqfiles {enc(ta)} {enc(tb)}", f"eqfiles {enc(tb)} {enc(ta)}"],
+            "texts": [ta, tb], "expect_equal": equal}
 
 
 def rowcount_history(rng):
@@ -699,6 +771,9 @@ def cases(rng, tier):
     # 6. container histories
     for _ in range(240 if quick else 6000):
         yield history(rng)
+    # 6b. equality of two parsed files with different layouts of the same tables, before any access
+    for _ in range(120 if quick else 3000):
+        yield eqfiles_case(rng)
     # 7. cached row count across edits
     for _ in range(80 if quick else 2000):
         yield rowcount_history(rng)
@@ -761,12 +836,16 @@ def _ident(kind, e):
     return int(e.as_item())
 
 
-def _raw(kind, key, n):
-    """Serialised form of element n (n None: something that cannot be deserialised)."""
+def _raw(kind, key, n, alt=False):
+    """Serialised form of element n (n None: something that cannot be deserialised); alt: another layout."""
     if kind == "tfile":
-        return f"data_{key}\n#\n_c.v   {n}\n#\n" if n is not None else f"data_{key}\n#\nloop_\n"
+        if n is None:
+            return f"data_{key}\n#\nloop_\n"
+        return f"data_{key}\n#\n_c.v '{n}'\n# other writer\n" if alt else f"data_{key}\n#\n_c.v   {n}\n#\n"
     if kind == "tblock":
-        return f"_{key}.v   {n}\n#\n" if n is not None else f"_{key}.v 1 2 3\n#\n"
+        if n is None:
+            return f"_{key}.v 1 2 3\n#\n"
+        return f"_{key}.v \"{n}\"\n\n#\n" if alt else f"_{key}.v   {n}\n#\n"
     if n is None:
         return {"bad": 1}
     return _elem(kind, n).serialize()
@@ -779,7 +858,7 @@ def _container(kind, ents):
         if e[0] == "P":
             d[k] = _elem(kind, int(e[1:]))
         else:
-            d[k] = _raw(kind, k, int(e[1:]) if e[0] == "R" else None)
+            d[k] = _raw(kind, k, int(e[1:]) if e[0] in "RQ" else None, alt=e[0] == "Q")
     cls = {"tfile": pdbx.CIFFile, "tblock": pdbx.CIFBlock, "tcat": pdbx.CIFCategory,
            "bfile": pdbx.BinaryCIFFile, "bblock": pdbx.BinaryCIFBlock, "bcat": pdbx.BinaryCIFCategory}[kind]
     return cls(d)
@@ -878,6 +957,12 @@ def run_impl(case):
                             cs.append(_optname(cn) + ":!")
                     bs.append(enc(bn) + "@" + ("_" if not cs else "/".join(cs)))
                 out.append("ok " + ("_" if not bs else "|".join(bs)))
+            elif w[0] == "eqfiles":
+                try:
+                    fa, fb = pdbx.CIFFile.deserialize(dec(w[1])), pdbx.CIFFile.deserialize(dec(w[2]))
+                    out.append("ok " + str(bool(fa == fb)))
+                except Exception:
+                    out.append("ERR")
             elif w[0] == "rcnew":
                 cols = {k: _rc_col(w[1], int(n)) for k, n in _parse_entries(w[2])}
                 rc = pdbx.CIFCategory(cols, name="c") if w[1] == "t" else pdbx.BinaryCIFCategory(cols)
@@ -1004,7 +1089,7 @@ def _container_oracle(case):
     BAD = object()
 
     def val(e):
-        return int(e[1:]) if e[0] in "PR" else BAD
+        return int(e[1:]) if e[0] in "PRQ" else BAD
 
     binary = kind[0] == "b"
     fresh = set()          # keys of the container under test whose element was built in memory and never serialised
@@ -1072,6 +1157,10 @@ def _container_oracle(case):
                 got, exp = w[1] in cont, w[1] in ref
             elif w[0] == "citer":
                 got, exp = list(cont), list(ref)
+                for k in got:
+                    if k not in cont:
+                        return [(f"C06/container/{kind}/iterated-key-not-contained",
+                                 f"{op}: iteration yields {k!r}, but {k!r} in container is False (keys set: {list(ref)})")]
             elif w[0] == "clen":
                 got, exp = len(cont), len(ref)
             elif w[0] == "ceq":
@@ -1100,6 +1189,17 @@ def _container_oracle(case):
             return [(f"C06/container/{kind}/{w[0]}", f"{op}: unexpected {type(e).__name__}: {e}")]
         if got != exp:
             return [(f"C06/container/{kind}/{w[0]}", f"after {case['ops'][:case['ops'].index(op)]!r}: {op} gave {got!r}, a dict gives {exp!r}")]
+    # finally: every iterated key is retrievable and holds what was set
+    if cont is not None:
+        for k in list(cont):
+            try:
+                got = _ident(kind, cont[k])
+            except Exception as e:  # noqa: BLE001
+                got = type(e).__name__
+            exp = "KeyError" if k not in ref else "DeserializationError" if ref[k] is BAD else ref[k]
+            if got != exp:
+                return [(f"C06/container/{kind}/iterated-key-not-retrievable",
+                         f"after {case['ops']!r}: container[{k!r}] gave {got!r}, a dict gives {exp!r}")]
     return []
 
 
@@ -1140,7 +1240,33 @@ def _rowcount_oracle(case):
     return []
 
 
+def _eqfiles_oracle(case):
+    """Same tables => equal, whatever the text layout and whatever has been parsed so far."""
+    import biotite.structure.io.pdbx as pdbx
+    ta, tb = case["texts"]
+    exp = case["expect_equal"]
+    for label, (x, y) in (("a==b", (ta, tb)), ("b==a", (tb, ta))):
+        try:
+            got = bool(pdbx.CIFFile.deserialize(x) == pdbx.CIFFile.deserialize(y))
+        except Exception as e:  # noqa: BLE001
+            got = type(e).__name__
+        if got != exp:
+            return [("C06/container/text/eq-of-parsed-files",
+                     f"{label} directly after parsing gave {got!r}, the tables are {'equal' if exp else 'different'}")]
+    # and the answer does not change once everything has been accessed
+    fa, fb = pdbx.CIFFile.deserialize(ta), pdbx.CIFFile.deserialize(tb)
+    for f in (fa, fb):
+        for b in f.values():
+            for c in b.values():
+                list(c.keys())
+    if bool(fa == fb) != exp:
+        return [("C06/container/text/eq-of-parsed-files", f"after access: {fa == fb}, expected {exp}")]
+    return []
+
+
 def oracle(case):
+    if case.get("kind") == "eqfiles":
+        return _eqfiles_oracle(case)
     if case.get("kind", "").startswith("rowcount/"):
         return _rowcount_oracle(case)
     if case.get("table") is not None:
